@@ -88,6 +88,7 @@ let rec print (v : val0) : string =
 
 let functions : (string * (val0 -> val0)) list = [
   ("hub", hub_run);
+  ("votes", votes_run);
 ]
 
 (* monitors: (property, suite) -> case -> implementation output -> list of violations *)
@@ -98,6 +99,8 @@ let monitors : ((string * string) * (val0 -> val0 -> val0)) list = [
   (("C13", "hub"), mon_C13);
   (("C11", "hub"), mon_C11);
   (("C19", "hub"), mon_C19);
+  (("C02", "votes"), mon_C02);
+  (("C03", "votes"), mon_C03);
 ]
 
 let first_diff (a : val0) (b : val0) : int =
